@@ -36,6 +36,7 @@ fn run_case(case: &cases::Case, model: &HashMap<String, f32>) -> (Vec<Record>, O
     let (ds, lo, hi) = DEFAULTS.with(|d| d.get());
     ctx.default_seed = ds;
     ctx.default_range = (lo, hi);
+    ctx::sync(&ctx);
     let r = ctx.catch(|ctx| (case.run)(ctx));
     (ctx.records.clone(), r.err(), ctx.assumes_ok)
 }
@@ -84,6 +85,7 @@ fn main() {
                 continue;
             }
             let mut ctx = Ctx::new(Mode::Seeded(k), HashMap::new());
+            ctx::sync(&ctx);
             let r = ctx.catch(|ctx| (case.run)(ctx));
             let vals: Vec<String> = ctx.values.iter().map(|(role, b)| format!("[\"{}\",{}]", esc(role), b)).collect();
             writeln!(
